@@ -14,7 +14,12 @@ import (
 )
 
 func writeTempYAML(content string) (string, error) {
-	f, err := os.CreateTemp("", "f1verif-cfg-*.yaml")
+	// in the worker's own working directory (the scratch directory of this check, removed when the check ends), so
+	// that nothing is left behind when a worker is killed or crashes; the system temp directory only as a fallback
+	f, err := os.CreateTemp(".", "f1verif-cfg-*.yaml")
+	if err != nil {
+		f, err = os.CreateTemp("", "f1verif-cfg-*.yaml")
+	}
 	if err != nil {
 		return "", err
 	}
